@@ -38,7 +38,6 @@ UNITS: dict[str, tuple[Fr, tuple]] = {
     "foot": (Fr(3048, 10000), vec(L=1)),
     "yard": (Fr(9144, 10000), vec(L=1)),
     "mile": (Fr(1609344, 1000), vec(L=1)),
-    "nautical_mile": (Fr(1852), vec(L=1)),
     "angstrom": (Fr(1, 10**10), vec(L=1)),
     # mass
     "milligram": (Fr(1, 10**6), vec(M=1)),
@@ -82,7 +81,6 @@ UNITS: dict[str, tuple[Fr, tuple]] = {
     # angles (dimensionless in this library)
     "radian": (Fr(1), ZERO),
     "degree": (PI / 180, ZERO),
-    "steradian": (Fr(1), ZERO),
     # dimensionless
     "percent": (Fr(1, 100), ZERO),
     "permille": (Fr(1, 1000), ZERO),
@@ -139,10 +137,12 @@ def observed_vector(dimension) -> tuple | None:
     for k, v in deps.items():
         names[str(getattr(k, "name", k))] = v
     for b in BASES:
-        v = names.pop(b, 0)
-        try:
-            out.append(Fr(str(sympy.nsimplify(v, rational=True))))
-        except Exception:  # symbolic or irrational exponent
+        v = sympy.sympify(names.pop(b, 0))
+        if v.is_Rational:
+            out.append(Fr(int(v.p), int(v.q)))
+        elif v.is_number and v.is_real:
+            out.append(Fr(float(v)))  # float exponent: exact binary fraction of the float
+        else:  # symbolic or complex exponent
             return ("symbolic", str(deps))
     names.pop("angle", None)
     if any(v != 0 for v in names.values()):
@@ -157,4 +157,10 @@ def observed_si_value(q):
     sf = q.scale_factor
     if v is None or (isinstance(v, tuple) and v and v[0] in ("symbolic", "foreign")):
         return sf
+    if abs(v[1]) > 64 or v[1].denominator > 10**6:  # avoid exact huge integer powers / float exponents
+        return sf * sympy.Float(10, 40) ** (sympy.Float(-3, 40) * sympy.Rational(v[1].numerator, v[1].denominator))
     return sf / sympy.Integer(1000) ** sympy.Rational(v[1].numerator, v[1].denominator)
+
+
+def vec_close(a, b, tol=1e-9) -> bool:
+    return all(abs(float(x) - float(y)) <= tol for x, y in zip(a, b))
